@@ -21,7 +21,7 @@ RULE = ('2..7 byte ranges are placed relative to each other with a drawn relatio
         'least two positive-length ranges that are not far apart, or a zero-length line touching a range. Distinct = '
         'SHA-1 of the case JSON.')
 ASSUMPTIONS = ['no muted lines (whether a muted line occupies its addresses is not stated)']
-BUDGET = {'quick': 3200, 'thorough': 100000}
+BUDGET = {'quick': 3200, 'thorough': 200000}
 LEVEL_TEXT = ('Exploration over the family of relative positions and source orders of ranges, with the relation drawn '
               'explicitly so that touching (must pass) and one-byte overlap (must fail) occur in every run.')
 LEVEL_NOTE = 'Trusted: bvf/refmodel.py Layouter (pairwise overlap over positive-length lines).'
